@@ -3,4 +3,4 @@
         ensures
             (r is Ok) == (from_map_spec::<PathType>(rqctx.endpoint.variables) is Some), // @path_extractor_fails_only_on_undecodable_variables
             r is Ok ==> r->Ok_0.inner == from_map_spec::<PathType>(rqctx.endpoint.variables)->Some_0, // @path_value_unaltered
-            r is Err ==> status_of(r->Err_0) == 400, // @path_extractor_error_is_400
+            r is Err ==> is_client_code(status_of(r->Err_0)), // @path_extractor_error_is_400
